@@ -489,4 +489,15 @@ Proof.
     rewrite nth_indep with (d' := v1) by (now rewrite repeat_length). rewrite nth_repeat. ring.
 Qed.
 
+(* full statement for every mode n (all three branches of tensor.mttkrp); proved above for n = 0 only
+   (impl_mttkrp_dense_n0_correct); the branches n = N-1 and 0 < n < N-1 are correspondence-only *)
+Definition impl_mttkrp_dense_correct_stmt : Prop :=
+  forall (X : dense V) Us R n, wf_dense X -> 2 <= length (dshape X) -> n < length (dshape X) ->
+  length Us = length (dshape X) -> Forall (wf_cols R) (remove_at n Us) ->
+  map (@length _) (remove_at n Us) = remove_at n (dshape X) ->
+  let Y := impl_mttkrp_dense v0 vadd vmul X Us n R in
+  dshape Y = [nth n (dshape X) 0; R] /\ wf_dense Y /\
+  forall x r, x < nth n (dshape X) 0 -> r < R ->
+    den Y [x; r] = spec_mttkrp v0 v1 vadd vmul (den X) (dshape X) n (repeat v1 R) Us x r.
+
 End P.
